@@ -284,6 +284,11 @@ class Scanner(ast.NodeVisitor):
                     k = self.kind(sub.value)
                     for t in sub.targets:
                         self.bind(t, k)
+                        # a, *rest = xs : rest is a list in the order of xs
+                        if isinstance(t, ast.Tuple):
+                            for el in t.elts:
+                                if isinstance(el, ast.Starred) and isinstance(el.value, ast.Name):
+                                    self.bind(el.value, 'ordered' if k == 'ordered' else 'set' if k in ('set', 'fs', 'unordered-dict') else 'unknown')
                 elif isinstance(sub, ast.AnnAssign) and isinstance(sub.target, ast.Name):
                     self.bind(sub.target, ann_kind(sub.annotation) or (self.kind(sub.value) if sub.value else 'unknown'))
                 elif isinstance(sub, ast.AugAssign) and isinstance(sub.target, ast.Name):
@@ -396,6 +401,10 @@ class Scanner(ast.NodeVisitor):
                 cons = 'compare:' + ','.join(type(o).__name__ for o in parent.ops)
             elif isinstance(parent, (ast.For, ast.comprehension)) and parent.iter is node:
                 cons = 'iterate'
+            elif (isinstance(parent, (ast.If, ast.While, ast.IfExp, ast.Assert)) and parent.test is node) \
+                    or (isinstance(parent, ast.BoolOp) and node in parent.values) \
+                    or (isinstance(parent, ast.UnaryOp) and isinstance(parent.op, ast.Not)):
+                cons = 'truth-value'          # emptiness test = len(..) > 0
             elif isinstance(parent, ast.Attribute):
                 cons = 'attr:' + parent.attr
             elif isinstance(parent, ast.Subscript):
@@ -406,7 +415,7 @@ class Scanner(ast.NodeVisitor):
                 cons = 'return'
             cname = cons.split(':')[-1]
             insens = cons.startswith('call:') and cname in ORDER_INSENSITIVE_CONSUMERS or \
-                cons in ('compare:In', 'compare:NotIn')
+                cons in ('compare:In', 'compare:NotIn', 'truth-value')
             self.add(f'tainted-attr:{cons}', node, 'tainted-insensitive' if insens else 'tainted')
         self.generic_visit(node)
 
